@@ -444,6 +444,9 @@ func (r *Report) Full() bool {
 
 // parallel map over cases
 func parallel[C any](cases []C, workers int, fn func(m *Model, c C)) {
+	if cs, ok := any(cases).([]Case); ok {
+		cases = any(strayAll(cs)).([]C)
+	}
 	ch := make(chan C, 256)
 	var wg sync.WaitGroup
 	for w := 0; w < workers; w++ {
